@@ -220,7 +220,7 @@ def _groups_data_xml(level, ind, out, late_fields=()):
 def to_xml(s):
     out = ['<?xml version="1.0" encoding="UTF-8"?>']
     out.append('<sbe:messageSchema xmlns:sbe="http://fixprotocol.io/2016/sbe"%s>' % _attrs(
-        [("package", s.package), ("id", s.id), ("version", s.version), ("semanticVersion", s.sem_version),
+        [("package", getattr(s, "xml_package", None) or s.package), ("id", s.id), ("version", s.version), ("semanticVersion", s.sem_version),
          ("description", s.desc), ("byteOrder", s.byte_order), ("headerType", s.header_type)]))
     out.append("  <types>")
     for t in s.types:
